@@ -89,11 +89,12 @@ where
             write!(result, "{start},{second_processor_id}")
                 .expect("writing to a String is infallible");
         } else {
-            let last_processor_id = start
-                .checked_add(len)
-                .expect("overflow impossible unless we far exceed any realistic processor ID range")
+            // We add `len - 1` rather than subtracting one from `start + len`, because the
+            // latter overflows for a run that ends at the very top of the ID range.
+            let last_processor_id = len
                 .checked_sub(1)
-                .expect("cannot underflow because len is NonZero");
+                .and_then(|offset| start.checked_add(offset))
+                .expect("the last item of the run is an item we were given, so it is representable");
 
             write!(result, "{start}-{last_processor_id}")
                 .expect("writing to a String is infallible");
